@@ -315,3 +315,27 @@ def run_twice(ctx, col, modules, rule="R-ITER2", only=None):
                     f"iter() / map() argument the second consumer sees an empty sequence -- the requested extra columns are silently dropped, or nothing is removed", stmt=f"twice:{p}", definite=True)
     if not n:
         col.ok(rule, "swcgeom.core.swc_utils.io", "swcgeom/core/swc_utils/io.py:1", "Iterable options are walked once", "no Iterable parameter consumed twice", stmt="twice")
+
+
+def run_allpairs(ctx, col, modules, rule="R-ALLPAIRS"):
+    """the pairwise-overlap term of the tree volume ranges over ALL unordered pairs of a node's child cones: `itertools.pairwise` / `zip(x, x[1:])` give the adjacent pairs only"""
+    col.rule(rule, "a term over pairs of sibling cones ranges over all unordered pairs (i < j double loop, itertools.combinations(x, 2)); itertools.pairwise / zip(x, x[1:]) yield the "
+             "adjacent pairs only, so with three or more children some overlaps are never subtracted and the result depends on the order of the children (zero expected)", floor=0)
+    n = 0
+    for d in ctx.repo.all_defs():
+        if d.module.name not in modules or d.is_lambda:
+            continue
+        for c in ast.walk(d.node):
+            hit = None
+            if isinstance(c, ast.Call) and (dotted(c.func) or "").rsplit(".", 1)[-1] == "pairwise" and c.args:
+                hit = norm_src(c)
+            if isinstance(c, ast.Call) and isinstance(c.func, ast.Name) and c.func.id == "zip" and len(c.args) == 2 and isinstance(c.args[1], ast.Subscript) \
+                    and norm_src(c.args[1].value) == norm_src(c.args[0]) and isinstance(c.args[1].slice, ast.Slice) and norm_src(c.args[1].slice.lower or ast.Constant(0)) == "1":
+                hit = norm_src(c)
+            if hit and any(k in hit for k in ("cone", "frust", "child", "sibling")):
+                n += 1
+                col.bad(rule, d.qualname, d.loc(c), "every pair of sibling cones is considered", f"`{hit[:60]}` pairs each cone with the next one only: with three or more children the overlap of "
+                        f"non-adjacent cones is never subtracted, and which pairs are adjacent depends on the order of the children in the node table (the volume changes under renumbering)",
+                        stmt="allpairs", definite=True)
+    if not n:
+        col.ok(rule, "swcgeom.analysis.volume", "swcgeom/analysis/volume.py:1", "every pair of sibling cones is considered", "no adjacent-pairs iteration over the child cones", stmt="allpairs")
